@@ -363,6 +363,8 @@ def main():
     vlib.proof_phase(ctx, extra_targets=['Extract/ExtractVirtualPtr.vo'])
     # the constructor from an object and final(), as translated from core.hpp on this run (Gen/GenVptr.v)
     vlib.proof_phase_extra(ctx, 'Properties_C09_source')
+    # Policy::dynamic_vptr (what the constructor falls back on) as translated from vptr_vector.hpp / vptr_map.hpp
+    vlib.proof_phase_extra(ctx, 'Properties_pub_source')
     mdl, log1 = vlib.ocaml_driver('virtualptr_model', 'Extract/ExtractVirtualPtr.vo', ['ocaml/virtualptr_driver.ml'])
     if not mdl:
         ctx.broken.append('model driver does not build: ' + log1[-300:])
